@@ -32,6 +32,10 @@ pub(crate) struct Parser<'t> {
     /// `steps` is advanced in `nth()` and is reset in `do_bump()`
     /// `steps` records a lookahead.
     steps: Cell<u32>,
+
+    /// Verification hook: look-ups and events since the last consumed token (stuck detector).
+    #[cfg(oq3_verif)]
+    verif_since_bump: Cell<u32>,
 }
 
 static PARSER_STEP_LIMIT: Limit = Limit::new(15_000_000);
@@ -43,7 +47,17 @@ impl<'t> Parser<'t> {
             pos: 0,
             events: Vec::new(),
             steps: Cell::new(0),
+            #[cfg(oq3_verif)]
+            verif_since_bump: Cell::new(0),
         }
+    }
+
+    /// Verification hook: turn "no token consumed for very long" into an attributable panic.
+    #[cfg(oq3_verif)]
+    fn verif_tick(&self) {
+        let n = self.verif_since_bump.get() + 1;
+        assert!(n < 200_000, "VERIF-STUCK: no token consumed for 200000 parser operations");
+        self.verif_since_bump.set(n);
     }
 
     /// Move `events` out of this `Parser`.
@@ -68,6 +82,8 @@ impl<'t> Parser<'t> {
     /// If parser has already reached the end of input,
     /// the special `EOF` kind is returned.
     pub(crate) fn current(&self) -> SyntaxKind {
+        #[cfg(oq3_verif)]
+        self.verif_tick();
         // This has the same effect as self.nth(0)
         self.inp.kind(self.pos)
     }
@@ -95,6 +111,8 @@ impl<'t> Parser<'t> {
     /// Checks if the `n`th token from the current position is `kind`.
     /// If `kind` is a composite token, it is interpreted as single token.
     pub(crate) fn nth_at(&self, n: usize, kind: SyntaxKind) -> bool {
+        #[cfg(oq3_verif)]
+        self.verif_tick();
         match kind {
             T![-=] => self.at_composite2(n, T![-], T![=]),
             T![->] => self.at_composite2(n, T![-], T![>]),
@@ -290,12 +308,16 @@ impl<'t> Parser<'t> {
     }
 
     fn do_bump(&mut self, kind: SyntaxKind, n_raw_tokens: u8) {
+        #[cfg(oq3_verif)]
+        self.verif_since_bump.set(0);
         self.pos += n_raw_tokens as usize;
         self.steps.set(0);
         self.push_event(Event::Token { kind, n_raw_tokens });
     }
 
     fn push_event(&mut self, event: Event) {
+        #[cfg(oq3_verif)]
+        self.verif_tick();
         self.events.push(event);
     }
 }
